@@ -2,70 +2,89 @@
 (***************************************************************************)
 (* cmd/seccomp-profiler/main.go doObjdump + hashBinary and the cache file  *)
 (* (C17): two consecutive profiler runs on one binary, the first of which  *)
-(* may be killed at any step or see its disassembler fail.                 *)
+(* may be killed at any step, see its disassembler fail, or have a write   *)
+(* to the file fail part-way.                                              *)
 (*                                                                         *)
 (* Disk                                                                    *)
-(*   cache   the cache file: "absent" or [hash, body, ...]                 *)
-(*           hash  : "cur" (hash of the binary as it is now) | "old"       *)
+(*   cache   the cache file: [hash, body]                                  *)
+(*           hash  : "none" | "cur" (hash of the binary as it is now) |    *)
+(*                   "old"                                                 *)
 (*           body  : number of listing chunks in the file (0..NChunks)     *)
 (*   tmp     the temporary file of a run in progress (same shape)          *)
 (* Process (one run)                                                       *)
-(*   pc      start | compare | create | hashline | dump | flush | close |  *)
-(*           rename | use | done | failed | dead                           *)
+(*   pc      start | create | hashline | dump | flush | close | rename |   *)
+(*           lateflush | use | failed | done | dead                        *)
 (*   buf     what the buffered writer holds: [hash : BOOLEAN, chunks]      *)
 (*   sent    chunks the disassembler has produced so far                   *)
 (*   used    body length of the file the run finally parses (-1 = none)    *)
+(*   where   the name the writer's file currently has: "tmp" | "cache"     *)
 (* The disassembler produces NChunks chunks and may fail (tool missing, or *)
-(* non-zero exit after any chunk); the buffered writer flushes whenever it *)
-(* likes; Kill may strike between any two steps (the disk keeps what was   *)
-(* flushed).  The binary may be rebuilt between the runs.                  *)
+(* non-zero exit after any chunk); the buffered writer writes out whenever *)
+(* it likes, and a write may fail part-way (disk full, file size limit):   *)
+(* a part of the buffered data reaches the file and the writer gets an     *)
+(* error; Kill may strike between any two steps (the disk keeps what was   *)
+(* written).  The binary may be rebuilt between the runs.                  *)
 (*                                                                         *)
-(* Dev = {"InPlaceCache"}: the pinned commit - the cache file itself was   *)
-(* created and written in place, hash line first.                          *)
+(* Dev (behaviours that are NOT in the tree; each breaks the property):    *)
+(*   "InPlaceCache"      the pinned commit: the cache file itself was      *)
+(*                       created and written in place, hash line first     *)
+(*   "FlushAfterRename"  (a seeded change) the temporary file is renamed   *)
+(*                       to the cache name before the final flush          *)
 (***************************************************************************)
 EXTENDS Integers, Sequences, FiniteSets, TLC
 CONSTANTS NChunks, Dev
 
-VARIABLES cache, tmp, pc, buf, sent, used, run, toolOK, failAt, rebuilt, fate
-vars == <<cache, tmp, pc, buf, sent, used, run, toolOK, failAt, rebuilt, fate>>
+VARIABLES cache, tmp, pc, buf, sent, used, run, toolOK, failAt, rebuilt, fate, where
+vars == <<cache, tmp, pc, buf, sent, used, run, toolOK, failAt, rebuilt, fate, where>>
 
 Absent == [hash |-> "none", body |-> 0]
 InPlace == "InPlaceCache" \in Dev
-\* the file the writer of this run writes to
-Target == IF InPlace THEN cache ELSE tmp
+EarlyRename == "FlushAfterRename" \in Dev
+Empty == [hash |-> FALSE, chunks |-> 0]
+HasData == buf.hash \/ buf.chunks > 0
+
+\* the file the writer of this run writes to, and how to replace its content
+Target == IF where = "cache" THEN cache ELSE tmp
+Set(f) == IF where = "cache" THEN cache' = f /\ UNCHANGED tmp ELSE tmp' = f /\ UNCHANGED cache
+Keep == UNCHANGED <<run, toolOK, failAt, rebuilt, fate>>
 
 Init ==
   /\ cache = Absent /\ tmp = Absent
-  /\ pc = "start" /\ buf = [hash |-> FALSE, chunks |-> 0] /\ sent = 0 /\ used = -1 /\ run = 1
+  /\ pc = "start" /\ buf = Empty /\ sent = 0 /\ used = -1 /\ run = 1
   /\ toolOK \in BOOLEAN /\ failAt \in 0..(NChunks + 1)   \* NChunks + 1 = the tool succeeds
   /\ rebuilt \in BOOLEAN
-  /\ fate = <<>>
-
-Set(f) == IF InPlace THEN cache' = f /\ UNCHANGED tmp ELSE tmp' = f /\ UNCHANGED cache
-KeepProc == UNCHANGED <<run, toolOK, failAt, rebuilt, fate>>
+  /\ fate = <<>> /\ where = IF InPlace THEN "cache" ELSE "tmp"
 
 \* os.Open + read 64 bytes + compare with the hash of the binary
 Compare ==
   /\ pc = "start"
   /\ IF cache.hash = "cur" THEN pc' = "use" /\ used' = cache.body ELSE pc' = "create" /\ UNCHANGED used
-  /\ UNCHANGED <<cache, tmp, buf, sent>> /\ KeepProc
+  /\ UNCHANGED <<cache, tmp, buf, sent, where>> /\ Keep
 \* os.Create / os.CreateTemp: an empty file
 Create ==
   /\ pc = "create"
-  /\ Set([hash |-> "none", body |-> 0])
-  /\ pc' = "hashline" /\ UNCHANGED <<buf, sent, used>> /\ KeepProc
+  /\ Set(Absent)
+  /\ pc' = "hashline" /\ UNCHANGED <<buf, sent, used, where>> /\ Keep
 \* out.WriteString(hash): goes to the buffer
 HashLine ==
   /\ pc = "hashline"
   /\ buf' = [buf EXCEPT !.hash = TRUE]
-  /\ pc' = "dump" /\ UNCHANGED <<cache, tmp, sent, used>> /\ KeepProc
-\* the buffered writer writes out what it holds (any time while dumping)
+  /\ pc' = "dump" /\ UNCHANGED <<cache, tmp, sent, used, where>> /\ Keep
+\* the buffered writer writes out what it holds (any time while dumping, and at the flush)
+Written(k) == [hash |-> IF buf.hash THEN "cur" ELSE Target.hash, body |-> Target.body + k]
 Spill ==
-  /\ pc \in {"dump", "flush"} /\ (buf.hash \/ buf.chunks > 0)
-  /\ Set([hash |-> IF buf.hash THEN "cur" ELSE Target.hash, body |-> Target.body + buf.chunks])
-  /\ buf' = [hash |-> FALSE, chunks |-> 0]
-  /\ pc' = IF pc = "flush" THEN "close" ELSE pc
-  /\ UNCHANGED <<sent, used>> /\ KeepProc
+  /\ pc \in {"dump", "flush", "lateflush"} /\ HasData
+  /\ Set(Written(buf.chunks))
+  /\ buf' = Empty
+  /\ pc' = CASE pc = "flush" -> "close" [] pc = "lateflush" -> "use" [] OTHER -> pc
+  /\ used' = IF pc = "lateflush" THEN Written(buf.chunks).body ELSE used
+  /\ UNCHANGED <<sent, where>> /\ Keep
+\* ... or the write fails part-way: k of the buffered chunks (and the hash line, which comes first) reach the file
+SpillFails ==
+  /\ pc \in {"dump", "flush", "lateflush"} /\ HasData
+  /\ \E k \in 0..buf.chunks : Set(Written(k))
+  /\ buf' = Empty /\ pc' = "failed"
+  /\ UNCHANGED <<sent, used, where>> /\ Keep
 \* go tool objdump: missing tool, a chunk, a failure after some chunks, or a clean exit
 Dump ==
   /\ pc = "dump"
@@ -74,49 +93,52 @@ Dump ==
      \/ /\ toolOK /\ sent # failAt /\ sent < NChunks
         /\ sent' = sent + 1 /\ buf' = [buf EXCEPT !.chunks = @ + 1] /\ UNCHANGED pc
      \/ /\ toolOK /\ sent = NChunks /\ failAt > NChunks
-        /\ pc' = (IF buf.hash \/ buf.chunks > 0 THEN "flush" ELSE "close") /\ UNCHANGED <<buf, sent>>
-  /\ UNCHANGED <<cache, tmp, used>> /\ KeepProc
-\* pinned commit: the deferred Flush and Close also ran on the failure path
+        /\ pc' = (IF EarlyRename THEN "rename" ELSE IF HasData THEN "flush" ELSE "close") /\ UNCHANGED <<buf, sent>>
+  /\ UNCHANGED <<cache, tmp, used, where>> /\ Keep
+\* the error path: the pinned commit's deferred Flush and Close ran here too; now the temporary file is removed
+\* (a file that already carries the cache name stays)
 FailedCleanup ==
   /\ pc = "failed"
-  /\ IF InPlace
-     THEN /\ cache' = [hash |-> IF buf.hash THEN "cur" ELSE cache.hash, body |-> cache.body + buf.chunks] /\ UNCHANGED tmp
-     ELSE /\ tmp' = Absent /\ UNCHANGED cache            \* os.Remove of the temporary file
-  /\ pc' = "done" /\ used' = -1
-  /\ buf' = [hash |-> FALSE, chunks |-> 0] /\ UNCHANGED sent /\ KeepProc
+  /\ IF where = "cache"
+     THEN /\ cache' = (IF InPlace THEN Written(buf.chunks) ELSE cache) /\ UNCHANGED tmp
+     ELSE /\ tmp' = Absent /\ UNCHANGED cache
+  /\ pc' = "done" /\ used' = -1 /\ buf' = Empty
+  /\ UNCHANGED <<sent, where>> /\ Keep
 Close ==
   /\ pc = "close"
   /\ pc' = IF InPlace THEN "use" ELSE "rename"
   /\ used' = IF InPlace THEN cache.body ELSE used
-  /\ UNCHANGED <<cache, tmp, buf, sent>> /\ KeepProc
+  /\ UNCHANGED <<cache, tmp, buf, sent, where>> /\ Keep
 Rename ==
   /\ pc = "rename"
-  /\ cache' = tmp /\ tmp' = Absent
-  /\ pc' = "use" /\ used' = tmp.body
-  /\ UNCHANGED <<buf, sent>> /\ KeepProc
-Use == /\ pc = "use" /\ pc' = "done" /\ UNCHANGED <<cache, tmp, buf, sent, used>> /\ KeepProc
+  /\ cache' = tmp /\ tmp' = Absent /\ where' = "cache"
+  /\ pc' = IF EarlyRename THEN (IF HasData THEN "lateflush" ELSE "use") ELSE "use"
+  /\ used' = tmp.body
+  /\ UNCHANGED <<buf, sent>> /\ Keep
+Use == /\ pc = "use" /\ pc' = "done" /\ UNCHANGED <<cache, tmp, buf, sent, used, where>> /\ Keep
 \* SIGKILL between any two steps of the first run
 Kill ==
   /\ run = 1 /\ pc \notin {"done", "dead"}
   /\ pc' = "dead" /\ used' = -1
   /\ fate' = Append(fate, pc)
-  /\ UNCHANGED <<cache, tmp, buf, sent, run, toolOK, failAt, rebuilt>>
-\* the next run: a normal one (tool present and succeeding); the binary may have been rebuilt
+  /\ UNCHANGED <<cache, tmp, buf, sent, run, toolOK, failAt, rebuilt, where>>
+\* the next run: a normal one (tool present and succeeding, no write failures); the binary may have been rebuilt
 NextRun ==
   /\ run = 1 /\ pc \in {"done", "dead"}
-  /\ run' = 2 /\ pc' = "start" /\ buf' = [hash |-> FALSE, chunks |-> 0] /\ sent' = 0 /\ used' = -1
+  /\ run' = 2 /\ pc' = "start" /\ buf' = Empty /\ sent' = 0 /\ used' = -1
   /\ toolOK' = TRUE /\ failAt' = NChunks + 1
   /\ cache' = IF rebuilt /\ cache.hash = "cur" THEN [cache EXCEPT !.hash = "old"] ELSE cache
   /\ fate' = Append(fate, IF pc = "dead" THEN "killed" ELSE IF used = -1 THEN "failed" ELSE "ok")
+  /\ where' = IF InPlace THEN "cache" ELSE "tmp"
   /\ UNCHANGED <<tmp, rebuilt>>
-Next == Compare \/ Create \/ HashLine \/ Spill \/ Dump \/ FailedCleanup \/ Close \/ Rename \/ Use \/ Kill \/ NextRun
+Next == Compare \/ Create \/ HashLine \/ Spill \/ (run = 1 /\ SpillFails) \/ Dump \/ FailedCleanup \/ Close \/ Rename \/ Use \/ Kill \/ NextRun
 Spec == Init /\ [][Next]_vars
 
 \* C17: whatever happened to the first run, the second one parses a complete listing of
 \* the current binary (or fails): never a profile with fewer syscalls
 SecondRunSound == (run = 2 /\ pc = "done" /\ used # -1) => used = NChunks
-\* a file that carries the current hash is complete
-ValidMeansComplete == cache.hash = "cur" => cache.body = NChunks
+\* a file that carries the current hash under the cache name is complete
+ValidMeansComplete == (cache.hash = "cur" /\ ~(pc = "lateflush")) => cache.body = NChunks
 \* a run that was not disturbed succeeds
 UndisturbedSucceeds == (run = 2 /\ pc = "done") => used = NChunks
 =============================================================================
